@@ -518,3 +518,109 @@ Proof.
   revert H0. generalize (tinit t). induction ls as [|l ls IH]; intros st H0; cbn [fold_left]; [apply H0|].
   apply IH. now apply tstep_ainv.
 Qed.
+
+(* ---------- the unanswered-request count ---------- *)
+(* every request that has arrived is accounted for exactly once: not yet started, suspended, or ended *)
+Definition accounted (st : tstate) : list N := ready st ++ keys (reqs st) ++ ended st.
+
+Import Permutation.
+
+Lemma exec_accounted : forall ops w st, Permutation (accounted (exec ops w st)) (w :: accounted st).
+Proof.
+  assert (Hsus : forall st w q b, Permutation (accounted (suspend st w q b)) (w :: accounted st)).
+  { intros st w q b. unfold accounted, suspend. cbn [ready reqs ended set_reqs]. unfold keys. rewrite map_app. cbn.
+    rewrite <- !app_assoc. cbn. apply Permutation_sym. rewrite !(app_assoc (ready st)). apply Permutation_middle. }
+  assert (Hend : forall st w, Permutation (accounted (set_ended st (ended st ++ [w]))) (w :: accounted st)).
+  { intros st w. unfold accounted. cbn [ready reqs ended set_ended]. rewrite !app_assoc. apply Permutation_sym.
+    apply Permutation_cons_append. }
+  induction ops as [|o ops IH]; intros w st; cbn [exec].
+  - apply Hend.
+  - destruct o.
+    + cbv zeta. match goal with |- context [if ?b then _ else _] => destruct b end.
+      * eapply perm_trans; [apply IH|]. apply Permutation_refl.
+      * match goal with |- context [if ?b then _ else _] => destruct b end.
+        -- eapply perm_trans; [apply Hend|]. apply Permutation_refl.
+        -- eapply perm_trans; [apply Hsus|]. apply Permutation_refl.
+    + apply Hsus.
+    + eapply perm_trans; [apply Hsus|]. apply Permutation_refl.
+    + eapply perm_trans; [apply IH|]. apply Permutation_refl.
+    + apply Hsus.
+Qed.
+
+Lemma keys_remove_perm w q l : NoDup (keys l) -> In (w, q) l -> Permutation (keys l) (w :: keys (remove_req w l)).
+Proof.
+  unfold keys, remove_req. induction l as [|[x q0] l IH]; cbn; intros Hn Hin; [contradiction|].
+  inversion Hn as [|? ? Hx Hn']; subst. destruct Hin as [E|Hin].
+  - injection E as -> ->. rewrite N.eqb_refl. cbn.
+    assert (E : filter (fun x0 => negb (N.eqb (fst x0) w)) l = l).
+    { clear - Hx. induction l as [|y l IH]; cbn; auto. cbn in Hx. destruct (N.eqb_spec (fst y) w) as [E|E]; cbn.
+      - exfalso. apply Hx. now left.
+      - f_equal. apply IH. intros H. apply Hx. now right. }
+    rewrite E. apply Permutation_refl.
+  - destruct (N.eqb_spec x w) as [->|Hne]; cbn.
+    + exfalso. apply Hx. apply in_map_iff. exists (w, q). auto.
+    + eapply perm_trans; [apply perm_skip, IH; auto|]. apply perm_swap.
+Qed.
+
+Lemma exec_arrived : forall ops w s, arrived (exec ops w s) = arrived s.
+Proof.
+  induction ops as [|o ops IH]; intros w s; cbn [exec]; [reflexivity|]. destruct o; try reflexivity.
+  - cbv zeta. repeat match goal with |- context [if ?b then _ else _] => destruct b end; rewrite ?IH; reflexivity.
+  - now rewrite IH.
+Qed.
+
+Lemma tstep_accounted ops st l : TInv st -> Permutation (arrived st) (accounted st) ->
+  Permutation (arrived (tstep ops st l)) (accounted (tstep ops st l)).
+Proof.
+  intros Hi Hp. pose proof Hi as [I1 I2 I3 I4 I5 I6 I7 I8].
+  assert (Hk : NoDup (keys (reqs st))) by (now apply nodup_app_r in I2).
+  assert (Hrem : forall w q, In (w, q) (reqs st) ->
+            Permutation (arrived st) (w :: ready st ++ keys (remove_req w (reqs st)) ++ ended st)).
+  { intros w q Hin. eapply perm_trans; [exact Hp|]. unfold accounted.
+    eapply perm_trans; [apply Permutation_app_head, Permutation_app_tail, (keys_remove_perm w q); auto|].
+    cbn. apply Permutation_sym. apply Permutation_middle. }
+  destruct l as [w| |w|w|w|w|n]; cbn [tstep].
+  - destruct (memN w (arrived st)); [exact Hp|]. unfold accounted. cbn [arrived ready reqs ended set_ready].
+    rewrite <- app_assoc. cbn. eapply perm_trans; [apply Permutation_sym, Permutation_cons_append|].
+    eapply perm_trans; [apply perm_skip; exact Hp|]. unfold accounted. apply Permutation_middle.
+  - destruct (ready st) as [|w r] eqn:Er; [exact Hp|].
+    rewrite exec_arrived. cbn [arrived set_ready]. eapply perm_trans; [exact Hp|]. apply Permutation_sym. eapply perm_trans; [apply exec_accounted|].
+    unfold accounted. cbn [ready reqs ended set_ready]. rewrite Er. apply Permutation_refl.
+  - destruct (lookup_req w (reqs st)) as [q|] eqn:El; [|exact Hp]. apply lookup_req_in in El.
+    destruct (memN w (waiting st)); [exact Hp|]. cbv zeta.
+    match goal with |- Permutation (arrived (exec _ w ?S)) _ => set (s0 := S) end.
+    rewrite exec_arrived. apply Permutation_sym. eapply perm_trans; [apply exec_accounted|].
+    apply Permutation_sym. subst s0. destruct (t_in_handler q); cbn; apply (Hrem w q El).
+  - destruct (lookup_req w (reqs st)) as [q|] eqn:El; [|exact Hp]. apply lookup_req_in in El.
+    destruct (memN w (waiting st)); [|exact Hp]. cbv zeta.
+    match goal with |- context [if ?b then _ else _] => destruct b end.
+    + rewrite exec_arrived. apply Permutation_sym. eapply perm_trans; [apply exec_accounted|].
+      apply Permutation_sym. cbn. apply (Hrem w q El).
+    + match goal with |- context [match ?x with Some _ => _ | None => _ end] => destruct x end; [exact Hp|].
+      unfold accounted. cbn [arrived ready reqs ended set_ended set_reqs set_lim].
+      eapply perm_trans; [apply (Hrem w q El)|]. rewrite !app_assoc. apply Permutation_cons_append.
+  - destruct (memN w (waiting st)); exact Hp.
+  - destruct (lookup_req w (reqs st)) as [q|] eqn:El; [|exact Hp]. apply lookup_req_in in El.
+    destruct (memN w (waiting st)); [exact Hp|]. cbv zeta.
+    eapply perm_trans; [|apply Permutation_refl].
+    destruct (t_in_handler q), (inside_block (t_rest q)); unfold accounted; cbn [arrived ready reqs ended set_ended set_reqs set_lim set_running];
+      (eapply perm_trans; [apply (Hrem w q El)|]); rewrite !app_assoc; apply Permutation_cons_append.
+  - exact Hp.
+Qed.
+
+(* the number of requests received whose handling has not finished = arrived - ended *)
+Theorem trun_unanswered ops t ls : bracketed ops = true -> 1 <= t -> Forall tok_label ls ->
+  let st := trun ops t ls in
+  Permutation (arrived st) (ready st ++ keys (reqs st) ++ ended st) /\
+  (unfinished st + length (ended st) = length (arrived st))%nat.
+Proof.
+  intros Hb Ht Hl. cbv zeta.
+  assert (H : TInv (trun ops t ls) /\ Permutation (arrived (trun ops t ls)) (accounted (trun ops t ls))).
+  { unfold trun. assert (H0 : TInv (tinit t) /\ Permutation (arrived (tinit t)) (accounted (tinit t))).
+    { split; [now apply tinit_inv|apply Permutation_refl]. }
+    revert H0. generalize (tinit t). induction Hl as [|l ls Hl1 Hl2 IH]; intros st [H1 H2]; cbn [fold_left]; [auto|].
+    apply IH. split; [now apply tstep_inv|now apply tstep_accounted]. }
+  destruct H as [_ H]. split; [exact H|].
+  apply Permutation_length in H. unfold accounted in H. rewrite !app_length in H. unfold unfinished, keys in *.
+  rewrite map_length in H. lia.
+Qed.
